@@ -81,6 +81,8 @@ type c07matcher struct {
 	typP, sigsP, thr *ssa.Parameter
 	dutySig          int64
 	nTrue            int
+	sel              bool // P11 mode: decide WHICH group is returned (see c07n4_rules.go) instead of size and grouping
+	nSel             int
 }
 
 func (m *c07matcher) isRoot(fr *c07frame, v ssa.Value, p *ssa.Parameter) bool {
@@ -244,6 +246,9 @@ func (m *c07matcher) run(fr *c07frame, si, bi int) {
 					mapv = x.X
 				}
 			}
+			if lk := c07lookupOf(sv); lk != nil && mapv == nil && an.IsMapType(lk.X.Type()) {
+				mapv = lk.X // `group, found := groups[root]`
+			}
 			whole := sv == ssa.Value(m.sigsP)
 			switch {
 			case whole:
@@ -260,6 +265,13 @@ func (m *c07matcher) run(fr *c07frame, si, bi int) {
 				prov = c07Bad("nil set returned with ok possibly true")
 			default:
 				prov = c07Unsure("origin of the set returned with ok=true is not recognised")
+			}
+			if m.sel {
+				if !whole {
+					m.nSel++
+					k.report("getThresholdMatching returns the group of the partial just stored", pr.loc.pos, m.selection(fr, sfr, sv, pr.loc))
+				}
+				continue
 			}
 			if whole {
 				k.report("getThresholdMatching DutySignature shortcut", pr.loc.pos, size.and(prov))
